@@ -11,8 +11,10 @@ import PyaModel.Generated.EmitConsts
 5. String lemmas about the comment texts (`withTrailing`, `ownLine`).
 6. Inserting a comment into a file without ignore comments.
 -/
-namespace Pya
-namespace Emit
+set_option linter.unusedSimpArgs false
+set_option linter.unusedVariables false
+
+namespace Pya.C11
 
 /-! ## 0. Tie to the live source: the constants `translate` regenerates are the model's -/
 
@@ -215,10 +217,10 @@ theorem Rel.run {S : List String} {en : String → Bool} {lines : List Line} (ra
     ∀ {st st2 st' : St}, Rel S st st2 → run en lines st raw = some st' →
       ∃ st2', run (disable S en) lines st2 raw = some st2' ∧ Rel S st' st2' := by
   induction raw with
-  | nil => intro st st2 st' h hr; simp only [Emit.run, Option.some.injEq] at hr ⊢; exact ⟨st2, rfl, hr ▸ h⟩
+  | nil => intro st st2 st' h hr; simp only [C11.run, Option.some.injEq] at hr ⊢; exact ⟨st2, rfl, hr ▸ h⟩
   | cons r rs ih =>
     intro st st2 st' h hr
-    simp only [Emit.run] at hr ⊢
+    simp only [C11.run] at hr ⊢
     cases hs : showError en lines st r with
     | none => rw [hs] at hr; cases hr
     | some st1 =>
@@ -1878,12 +1880,12 @@ theorem run_all_dropped (en : String → Bool) (lines : List Line) (L : List Raw
 /-- Calls whose code is in `S` leave the relation with the right-hand run untouched. -/
 theorem Rel.left {S : List String} {en : String → Bool} {lines : List Line} (L : List Raw) :
     ∀ {st st2 st' : St}, Rel S st st2 → (∀ r ∈ L, codeIn S r = true) →
-      Emit.run en lines st L = some st' → Rel S st' st2 := by
+      C11.run en lines st L = some st' → Rel S st' st2 := by
   induction L with
-  | nil => intro st st2 st' h _ hr; simp only [Emit.run, Option.some.injEq] at hr; exact hr ▸ h
+  | nil => intro st st2 st' h _ hr; simp only [C11.run, Option.some.injEq] at hr; exact hr ▸ h
   | cons r rs ih =>
     intro st st2 st' h hS hr
-    simp only [Emit.run] at hr
+    simp only [C11.run] at hr
     cases hs : showError en lines st r with
     | none => rw [hs] at hr; cases hr
     | some st1 =>
@@ -1942,7 +1944,7 @@ theorem check_disable (S : List String) (en : String → Bool) (lines : List Lin
             rw [unusedRaws_eq, noIgnore_commentLines hno]; rfl
           have e2 : unusedRaws lines st1r.used = [] := by
             rw [unusedRaws_eq, noIgnore_commentLines hno]; rfl
-          rw [e1] at h2; simp only [Emit.run, Option.some.injEq] at h2
+          rw [e1] at h2; simp only [C11.run, Option.some.injEq] at h2
           rw [e2]; exact ⟨st1r, rfl, h2 ▸ rel1⟩
         · have hoff : (disable S en) "unused_ignore" = false := by
             simp only [hno, Bool.or_false, Bool.or_eq_true, Bool.not_eq_true'] at hyp
@@ -2144,5 +2146,143 @@ theorem isErrorCodeEnabled_cmdline_off (code : String) (insts : List Inst) (path
     have := h y hy'.1 (by simpa using hy'.2)
     simp [Inst.le, this]
 
-end Emit
-end Pya
+/-! ## 11. Credit and cover -/
+
+theorem firstIdx_some {α} {p : α → Bool} {l : List α} {i : Nat} (h : firstIdx p l = some i) :
+    ∃ hi : i < l.length, p l[i] = true := by
+  induction l generalizing i with
+  | nil => cases h
+  | cons a as ih =>
+    unfold firstIdx at h
+    by_cases ha : p a = true
+    · simp only [ha, if_true, Option.some.injEq] at h
+      subst h
+      exact ⟨by simp, ha⟩
+    · simp only [ha, Bool.false_eq_true, if_false, Option.map_eq_some_iff] at h
+      obtain ⟨j, hj, rfl⟩ := h
+      obtain ⟨hj', hp⟩ := ih hj
+      exact ⟨by simp; omega, by simpa using hp⟩
+
+theorem leading_getElem {lines : List Line} {i : Nat} (hi : i < (leading lines).length) :
+    ∃ hl : i < lines.length, (leading lines)[i] = lines[i] := by
+  have hpre : leading lines <+: lines := List.takeWhile_prefix _
+  have hlen := hpre.length_le
+  exact ⟨by omega, hpre.getElem hi⟩
+
+theorem covers_of_credited {lines : List Line} {r : Raw} {i : Nat} (h : credited lines r = some i) :
+    covers lines i r = true := by
+  rw [credited_eq] at h
+  unfold covers
+  rcases h with h | ⟨_, h⟩
+  · obtain ⟨hi, hp⟩ := firstIdx_some h
+    obtain ⟨hl, e⟩ := leading_getElem hi
+    rw [e] at hp
+    simp [hi, ownLineAt_lt hl, hp]
+  · have : lineTargets lines i r = true := by
+      unfold lineCredit at h
+      unfold lineTargets
+      cases hob : r.obey with
+      | false => simp [hob] at h
+      | true =>
+        rw [hob] at h
+        simp only [Bool.not_true, Bool.false_eq_true, if_false] at h
+        cases hp : r.pos with
+        | none => rw [hp] at h; cases h
+        | some p =>
+          obtain ⟨ln, c⟩ := p
+          rw [hp] at h
+          simp only [ge_iff_le, Bool.and_eq_true, decide_eq_true_eq] at h
+          simp only [Bool.true_and, Bool.or_eq_true, Bool.and_eq_true, beq_iff_eq]
+          by_cases h1 : 1 ≤ ln ∧ trailingAt lines (ln - 1) r.code = true
+          · rw [if_pos h1] at h
+            simp only [Option.some.injEq] at h
+            subst h
+            exact Or.inl ⟨by omega, h1.2⟩
+          · rw [if_neg h1] at h
+            by_cases h2 : 2 ≤ ln ∧ ownLineAt lines (ln - 2) r.code = true
+            · rw [if_pos h2] at h
+              simp only [Option.some.injEq] at h
+              subst h
+              exact Or.inr ⟨by omega, h2.2⟩
+            · rw [if_neg h2] at h; cases h
+    simp [this]
+
+theorem covers_bound {lines : List Line} {r : Raw} {i : Nat} (h : covers lines i r = true) :
+    i < lines.length := by
+  unfold covers at h
+  simp only [Bool.or_eq_true, Bool.and_eq_true, decide_eq_true_eq] at h
+  rcases h with ⟨_, h⟩ | h
+  · exact ownLineAt_bound h
+  · exact lineTargets_bound h
+
+theorem credited_of_covers {lines : List Line} {r : Raw} {i : Nat} (h : covers lines i r = true) :
+    ∃ j, credited lines r = some j := by
+  unfold covers at h
+  simp only [Bool.or_eq_true, Bool.and_eq_true, decide_eq_true_eq] at h
+  cases hf : firstIdx (ownLineMatch · r.code) (leading lines) with
+  | some j => exact ⟨j, by unfold credited; rw [hf]⟩
+  | none =>
+    have hfs : fileSuppressed lines r.code = false := by
+      unfold fileSuppressed; rw [← firstIdx_isSome, hf]; rfl
+    rcases h with ⟨hi, ho⟩ | h
+    · exfalso
+      obtain ⟨hl, e⟩ := leading_getElem hi
+      rw [ownLineAt_lt hl] at ho
+      unfold fileSuppressed at hfs
+      rw [List.any_eq_false] at hfs
+      have := hfs _ (List.getElem_mem hi)
+      rw [e, ho] at this
+      exact this rfl
+    · have hs : lineSuppressed lines r = true := by
+        unfold lineSuppressed
+        rw [List.any_eq_true]
+        exact ⟨i, List.mem_range.mpr (lineTargets_bound h), h⟩
+      rw [lineSuppressed_eq] at hs
+      cases hl : lineCredit lines r with
+      | none => rw [hl] at hs; cases hs
+      | some j => exact ⟨j, by unfold credited; rw [hf, hl]⟩
+
+theorem credited_iff_covers {en : String → Bool} {lines : List Line} {raw : List Raw}
+    (hu : UniqueCover en lines raw = true) (i : Nat) :
+    (∃ r ∈ nub (raw.filter (counted en)), credited lines r = some i) ↔
+      (∃ r ∈ nub (raw.filter (counted en)), covers lines i r = true) := by
+  constructor
+  · rintro ⟨r, hr, h⟩; exact ⟨r, hr, covers_of_credited h⟩
+  · rintro ⟨r, hr, h⟩
+    obtain ⟨j, hj⟩ := credited_of_covers h
+    have hcj := covers_of_credited hj
+    unfold UniqueCover at hu
+    have := List.all_eq_true.mp (List.all_eq_true.mp (List.all_eq_true.mp hu r hr) i
+      (List.mem_range.mpr (covers_bound h))) j (List.mem_range.mpr (covers_bound hcj))
+    simp only [h, hcj, Bool.and_self, Bool.not_true, Bool.false_or, beq_iff_eq] at this
+    exact ⟨r, hr, this ▸ hj⟩
+
+/-! ## 12. `splitlines()` against the tokenizer's lines -/
+
+theorem splitBy_congr (f g : Char → Bool) (src : List Char) (h : ∀ c ∈ src, f c = g c) :
+    ∀ cur afterCR, splitBy f src cur afterCR = splitBy g src cur afterCR := by
+  induction src with
+  | nil => intro cur a; rfl
+  | cons c cs ih =>
+    intro cur a
+    have hc := h c List.mem_cons_self
+    have ih' := ih (fun c' hc' => h c' (List.mem_cons_of_mem _ hc'))
+    simp only [splitBy, hc, ih']
+
+theorem tok_imp_py (c : Char) (h : isTokBreak c = true) : isPyBreak c = true := by
+  unfold isTokBreak at h
+  unfold isPyBreak
+  simp only [Bool.or_eq_true, beq_iff_eq] at h
+  rcases h with h | h <;> simp [h]
+
+theorem pyLines_eq_tokLines (src : List Char) (h : D11_splitlinesMismatch src = false) :
+    pyLines src = tokLines src := by
+  unfold pyLines tokLines
+  apply splitBy_congr
+  intro c hc
+  unfold D11_splitlinesMismatch at h
+  have h1 := List.any_eq_false.mp h c hc
+  have h2 := tok_imp_py c
+  cases hx : isPyBreak c <;> cases hy : isTokBreak c <;> simp_all
+
+end Pya.C11
